@@ -900,6 +900,10 @@ def _sc_candidates(sc):
         c = copy.deepcopy(sc)
         c['faults']['ontime_status'] = False
         yield c
+    if f.get('copy_machines'):
+        c = copy.deepcopy(sc)
+        c['faults']['copy_machines'] = False
+        yield c
     if sc.get('cluster_header'):
         c = copy.deepcopy(sc)
         c['cluster_header'] = None
